@@ -129,11 +129,12 @@ def main():
         evaluate(R, "rec", "rec_bad", "list (Z * Z) * Z", "recover_ok",
                  [(c["id"], "(%s, %s)" % ("[" + "; ".join("(%d, %s)" % (i, v) for i, v in zip(c["ids"], c["vals"])) + "]", c["result"])) for c in rec],
                  "RecoverSecret differs from recoverZ", {c["id"]: c for c in rec})
-        evaluations += len(lag) + len(sp) + len(se) + len(rec) + o.get("group_evals", 0) + o.get("history_calls", 0) + o.get("failure_history_calls", 0) + o.get("far_id_calls", 0) + o.get("alias_sequences", 0)
+        evaluations += len(lag) + len(sp) + len(se) + len(rec) + o.get("group_evals", 0) + o.get("history_calls", 0) + o.get("failure_history_calls", 0) + o.get("far_id_calls", 0) + o.get("alias_sequences", 0) + o.get("conversion_calls", 0)
         dist.update(o.get("dist") or {})
         dist["group_kinds"] = o.get("group_kinds")
         dist["degenerate_substitutions_expected_to_verify"] = o.get("degenerate_expected_verifies")
         dist["history_independence"] = {"sequences": o.get("history_blocks"), "calls": o.get("history_calls"), "by": o.get("history_stats")}
+        dist["tblsconv"] = {"conversion_calls": o.get("conversion_calls"), "validator_pairs_with_colliding_abbreviation": o.get("conversion_monitor_pairs")}
         dist["input_aliasing_sequences"] = o.get("alias_sequences")
         dist["large_wrapped_negative_share_id_calls"] = o.get("far_id_calls")
         dist["history_independence_after_failing_calls"] = {"sequences": o.get("failure_history_sequences"), "calls": o.get("failure_history_calls"), "by": o.get("failure_history_stats")}
@@ -183,6 +184,9 @@ def main():
                           "(Sign, partials + ThresholdAggregate, Verify, VerifyAggregate, Aggregate, RecoverSecret, RecoverPubkey); every result must be that of the CURRENT content (references from un-aliased calls, cross-checked by Verify; one sequence = one evaluation). "
                           "share ids: besides 1..10, ids i +- 256k, 2^16+i, 2^31-1, 2^31+i, 2^32+i and negative ids (Lagrange coefficient sets compared in Coq over Z; a share filed under such a far index must give exactly the model's value in RecoverSecret / RecoverPubkey / ThresholdAggregate and must not verify), "
                           "and splits with 300 shares (exact shares for every id in Go and in Coq, recovery from ids beyond 255). "
+                          "tblsconv: every conversion (PubkeyFromCore, core.PubKeyFromBytes/From48Bytes round trip, PubKey.ToETH2, PubkeyFromBytes/ToETH2, PrivkeyFromBytes, SignatureFromBytes, SigFromCore/ToCore/ToETH2) on pairs of inputs that agree on the logging abbreviation "
+                          "core.PubKey.String(), the first / last 4 and 8 bytes, or all but one byte, in both orders and interleaved with failing conversions (wrong lengths, non-hex): every result must be the byte-level identity; "
+                          "and the aggregate/verify monitor through CONVERTED keys of two validators whose real group keys (ground from the seed) collide on the abbreviation: B's threshold aggregate verifies under convert(B), not under convert(A), A's aggregate is not accepted for B. "
                           "model comparisons: one per id set (Lagrange coefficients, all subsets of 1..7 quick / 1..10 thorough), per scripted split, per CSPRNG split, per sampled RecoverSecret (also below threshold), "
                           "per verifySharesReconstruct call; every one is a distinct input")
     R.coverage["input_distribution"] = dist
